@@ -25,9 +25,19 @@ func genC18(seed uint64, tier string) *Scenario {
 	class := r.pick(1, 2, 2, 2, 2, 3)
 	if sc.Knobs == [4]int{} {
 		class = r.pick(2, 3, 3, 4)
+		// giant operands (170-360 words; scratch requests above 512 words) are
+		// expensive under the every-yield memory monitor: rare in the quick tier
+		if pg := map[string]float64{"thorough": 0.12}[tier]; r.chance(pg + 0.003) {
+			class = 5
+		}
 	}
 	nShared := r.rangeI(2, 6)
 	nTasks := r.rangeI(2, 5)
+	maxOps := 6
+	if class == 5 {
+		// giant operands (170-360 words): few variables, few operations
+		nShared, nTasks, maxOps = 2, r.rangeI(2, 3), 3
+	}
 	for i := 0; i < nShared; i++ {
 		v := r.genVar(class, 0.12, false)
 		r.c18Exp(&v)
@@ -71,7 +81,7 @@ func genC18(seed uint64, tier string) *Scenario {
 			sc.Vars = append(sc.Vars, v)
 		}
 		var ts TaskSpec
-		nOps := r.rangeI(1, 6)
+		nOps := r.rangeI(1, maxOps)
 		for i := 0; i < nOps; i++ {
 			op := Op{ID: opID, Name: menu[r.intn(len(menu))], Z: priv[r.intn(len(priv))]}
 			opID++
@@ -517,6 +527,12 @@ func refC18Windows(sc *Scenario) ([][]Result, *Outcome) {
 			lastWindows[op] = append(lastWindows[op], k)
 		}
 	}
-	defer func() { verifrt.PoolTrace = nil }()
+	verifrt.InterestTrace = func(task, op, k int) {
+		if op >= 0 {
+			// the yield before the statement, and the one right after it
+			lastWindows[op] = append(lastWindows[op], k, k+1)
+		}
+	}
+	defer func() { verifrt.PoolTrace = nil; verifrt.InterestTrace = nil }()
 	return refC18(sc)
 }
